@@ -722,7 +722,22 @@ def body(chk, db, cfgname):
         if len(got) == 2 and fw in got and any(h in got for h in hc):
             r3.ok(site, f.loc(ems[0][0]), "t c+(1) c(2) and %s c+(2) c(1)" % ("conj(t)" if complex_cfg else "t"), cfgname)
         else:
-            r3.bad(site, f.loc(), "the two emitted terms are not Hopping(1,2,t) and its Hermitian conjugate Hopping(2,1,%s): %s" % ("conj(t)" if complex_cfg else "t", "; ".join(_nm(g) for g in got)), cfgname)
+            # written differently: decide on the expanded summaries (t c+_1 c_2 present with coefficient t, result Hermitian)
+            exp_ = [(lay, a_, g_) for (pn, _, _), (lay, a_, g_) in polys.items() if pn == "addHopping/8"]
+            badcase = None
+            for lay, a_, g_ in exp_:
+                if g_ is None:
+                    continue
+                want_ = doc_preset("addHopping/8", lay, a_, complex_cfg)
+                if padd(g_, pdag(g_), -1) or (want_ is not None and padd(g_, want_, -1)):
+                    badcase = (lay, a_, g_)
+                    break
+            if badcase or not exp_:
+                lay, a_, g_ = badcase if badcase else (None, None, None)
+                r3.bad(site, f.loc(), "the emitted terms are not Hopping(1,2,t) plus its Hermitian conjugate Hopping(2,1,%s): %s%s" % (
+                    "conj(t)" if complex_cfg else "t", "; ".join(_nm(g) for g in got), (" — e.g. %s gives %s" % (fmt_case(lay, a_), show_poly(g_))) if badcase else ""), cfgname)
+            else:
+                r3.ok(site, f.loc(), "written differently from the reference; on %d expanded argument patterns the result is t c+(1) c(2) + h.c. (bounded)" % len(exp_), cfgname)
 
     # R5: algebra on the code's own polynomials
     def spin_ops(layout):
